@@ -77,7 +77,7 @@ func mapOrderReference(cs mapOrderCase, c10prefix []*types.WorkObject) (*mapOrde
 			if !ok {
 				return nil, "n/a", nil
 			}
-			blk, err := s.n.Build(core.VBuildOpts{Order: 2, Fill: true})
+			blk, err := s.n.Build(s.opts(core.VBuildOpts{Order: 2, Fill: true}))
 			if err != nil {
 				return nil, "", fmt.Errorf("build: %w", err)
 			}
@@ -104,7 +104,7 @@ func mapOrderReference(cs mapOrderCase, c10prefix []*types.WorkObject) (*mapOrde
 		ref.all = append(ref.all, s.blocks...)
 		// the prefix blocks carry conversions, coinbase unlocks and inbound ETXs: compare all of them
 		ref.first = 0
-		blk, err := s.n.Build(core.VBuildOpts{Order: 2, Fill: true})
+		blk, err := s.n.Build(s.opts(core.VBuildOpts{Order: 2, Fill: true}))
 		if err != nil {
 			return nil, "", fmt.Errorf("build: %w", err)
 		}
@@ -189,7 +189,7 @@ func mapOrderWorker(cs mapOrderCase, v uint64) (key, desc, shape string, err err
 		return "", "", "", err
 	}
 	defer s.close()
-	blk, err := s.n.Build(core.VBuildOpts{Order: 2, Fill: true})
+	blk, err := s.n.Build(s.opts(core.VBuildOpts{Order: 2, Fill: true}))
 	if err != nil {
 		return "", "", "", fmt.Errorf("build: %w", err)
 	}
